@@ -15,6 +15,7 @@ CONSTANTS
   FDataSet = {0, 99}
   LenSet = {5}
   CachedSet = {FALSE}
+  DmgSet = {FALSE}
   KindSet = {"ok"}
   Modes = {"tx"}
   DeliverAnyTime = FALSE
